@@ -511,6 +511,15 @@ func Alphabet() []ref.Mod {
 		{Kind: ref.MGeneric, Code: 82, Val: []byte{1, 2, 'x', 'y'}}, // collides with the echoed option 82
 		{Kind: ref.MTransactionID, Xid: [4]byte{}},                  // the all-zero id is an id like any other and must prevail
 		{Kind: ref.MRelay, IP: [4]byte{10, 44, 0, 1}},               // collides with a giaddr that is already set (copied from the request, or set by an earlier modifier)
+		{Kind: ref.MHWType, T: 6},                                   // collides with the copied hardware type
+		// the remaining exported With* functions: each sets one option to a fixed encoding (RFC 2132 / 3004 / 8925 / 3397)
+		{Kind: ref.MGeneric, Code: 77, Val: []byte("class"), Label: `WithUserClass("class", false)`},
+		{Kind: ref.MGeneric, Code: 77, Val: append([]byte{5}, "class"...), Label: `WithUserClass("class", true)`},
+		{Kind: ref.MGeneric, Code: 1, Val: []byte{255, 255, 240, 0}, Label: "WithNetmask(/20)"},
+		{Kind: ref.MGeneric, Code: 51, Val: []byte{0, 0, 0x0e, 0x10}, Label: "WithLeaseTime(3600)"},
+		{Kind: ref.MGeneric, Code: 108, Val: []byte{0, 0, 0x01, 0x2c}, Label: "WithIPv6OnlyPreferred(300)"},
+		{Kind: ref.MGeneric, Code: 119, Val: append(append([]byte{1, 'a', 7}, "example"...), 0), Label: `WithDomainSearchList("a.example")`},
+		{Kind: ref.MRequestedOptions, Codes: []uint8{66, 67}, Label: "WithNetboot"},
 	}
 }
 
@@ -531,6 +540,22 @@ func lip16(a [4]byte) net.IP { return net.IPv4(a[0], a[1], a[2], a[3]) }
 
 // libMod maps an alphabet element to a fresh instance of the exported With*.
 func libMod(m ref.Mod) dhcpv4.Modifier {
+	switch m.Label {
+	case `WithUserClass("class", false)`:
+		return dhcpv4.WithUserClass("class", false)
+	case `WithUserClass("class", true)`:
+		return dhcpv4.WithUserClass("class", true)
+	case "WithNetmask(/20)":
+		return dhcpv4.WithNetmask(net.CIDRMask(20, 32))
+	case "WithLeaseTime(3600)":
+		return dhcpv4.WithLeaseTime(3600)
+	case "WithIPv6OnlyPreferred(300)":
+		return dhcpv4.WithIPv6OnlyPreferred(300)
+	case `WithDomainSearchList("a.example")`:
+		return dhcpv4.WithDomainSearchList("a.example")
+	case "WithNetboot":
+		return dhcpv4.WithNetboot
+	}
 	switch m.Kind {
 	case ref.MMessageType:
 		return dhcpv4.WithMessageType(dhcpv4.MessageType(m.T))
@@ -562,6 +587,8 @@ func libMod(m ref.Mod) dhcpv4.Modifier {
 		return dhcpv4.WithGeneric(code(m.Code), append([]byte(nil), m.Val...))
 	case ref.MRelay:
 		return dhcpv4.WithRelay(lip16(m.IP))
+	case ref.MHWType:
+		return dhcpv4.WithHWType(iana.HWType(m.T))
 	}
 	panic("unknown modifier kind")
 }
@@ -685,6 +712,15 @@ func goIP(ip net.IP) string {
 }
 
 func goMod(m ref.Mod) string {
+	if m.Label == "WithNetmask(/20)" {
+		return "dhcpv4.WithNetmask(net.CIDRMask(20, 32))"
+	}
+	if m.Label != "" {
+		return "dhcpv4." + m.Label
+	}
+	if m.Kind == ref.MHWType {
+		return fmt.Sprintf("dhcpv4.WithHWType(iana.HWType(%d))", m.T)
+	}
 	switch m.Kind {
 	case ref.MMessageType:
 		return fmt.Sprintf("dhcpv4.WithMessageType(dhcpv4.MessageType(%d))", m.T)
